@@ -266,6 +266,14 @@ var c04LongForms = [][]string{
 	{"getrange", "ks", "N", "N"},
 	{"setrange", "ks", "N", "v"},
 	{"expire", "ks", "N", "gt"},
+	// multi-key forms with a key repeated non-adjacently (the same stripe reached twice)
+	{"mset", "ks", "v", "kn", "w", "ks", "x"},
+	{"mget", "ks", "kl", "ks", "nokey"},
+	{"del", "nokey", "kn", "nokey"},
+	{"exists", "ks", "kn", "ks"},
+	{"sunion", "ke", "nokey", "ke"},
+	{"sdiffstore", "ke", "ke", "kl", "ke"},
+	{"sinterstore", "kd", "ke", "kd", "ke"},
 }
 
 func VF_C04_long_forms() {
@@ -306,3 +314,8 @@ func VF_C04_long_forms() {
 	}
 	vfAssert(vfLocksHeld() == 0, "stripe-left-locked-after-probes")
 }
+
+// VF_C04_blocking_pops: BLPOP / BRPOP over two keys, each missing / a list / a key of another type, under
+// virtual time: the command returns by its timeout, leaves no stripe locked and the keys stay usable
+// (the list-semantics part of the same run is C09's).
+func VF_C04_blocking_pops() { c09Block(vfChoice("left", 2) == 1) }
